@@ -438,19 +438,9 @@ func compactEvents(graph *Graph) ([]Event, error) {
 			events = append(events, epicEvent)
 		}
 
-		if task.ClaimedBy != "" {
-			ts := pickTime(lastClaimAt, task.UpdatedAt)
-			claimEvent, err := newEvent("claim", ts, ClaimEvent{
-				ID:      task.ID,
-				AgentID: task.ClaimedBy,
-				TS:      formatTime(ts),
-			})
-			if err != nil {
-				return nil, err
-			}
-			events = append(events, claimEvent)
-		}
-
+		// The state goes before the claim: replaying a todo/done/canceled state clears the
+		// claimant, so a claim emitted first would be lost where a task carries one in such a
+		// state (a claim whose write was cut before its state line, a hand-merged log).
 		if task.State != createdState || (!lastStateAt.IsZero() && lastStateAt.After(createdAt)) {
 			ts := pickTime(lastStateAt, task.UpdatedAt)
 			stateEvent, err := newEvent("state", ts, StateEvent{
@@ -462,6 +452,19 @@ func compactEvents(graph *Graph) ([]Event, error) {
 				return nil, err
 			}
 			events = append(events, stateEvent)
+		}
+
+		if task.ClaimedBy != "" {
+			ts := pickTime(lastClaimAt, task.UpdatedAt)
+			claimEvent, err := newEvent("claim", ts, ClaimEvent{
+				ID:      task.ID,
+				AgentID: task.ClaimedBy,
+				TS:      formatTime(ts),
+			})
+			if err != nil {
+				return nil, err
+			}
+			events = append(events, claimEvent)
 		}
 
 		// Emit result events (in chronological order, oldest first)
